@@ -224,38 +224,6 @@ structure InvA (C : List Feature) (c : Conf) : Prop where
   forced : c.pc = .cloop true → ∀ f, tlsFeature C = some f → eligible c.st f = true ∧ f.negotiable = true
   good : ∀ e ∈ c.tr, NegGood e
 
-theorem writeHdr_tr (O : Oracle) (c : Conf) (p : Pc) :
-    ∃ b, (writeHdr O c p).tr = .hdrOut b :: c.tr := by
-  unfold writeHdr; split <;> exact ⟨_, rfl⟩
-
-theorem readHdr_tr (O : Oracle) (c : Conf) (p : Pc) :
-    (readHdr O c p).tr = c.tr ∨ ∃ r, (readHdr O c p).tr = .rd .hdr r :: c.tr := by
-  unfold readHdr
-  split
-  · left; rfl
-  · right; split
-    · exact ⟨_, rfl⟩
-    · split <;> exact ⟨_, rfl⟩
-
-theorem writeHdr_pc (O : Oracle) (c : Conf) (p : Pc) :
-    (writeHdr O c p).pc = p ∨ (writeHdr O c p).pc = .fail .io := by
-  unfold writeHdr; split
-  · right; rfl
-  · left; rfl
-
-theorem readHdr_pc (O : Oracle) (c : Conf) (p : Pc) :
-    (readHdr O c p).pc = p ∨ (∃ e, (readHdr O c p).pc = .fail e) ∨ (readHdr O c p).pc = .crash := by
-  unfold readHdr
-  split
-  · right; left; exact ⟨_, rfl⟩
-  · split
-    · right; left; exact ⟨_, rfl⟩
-    · split
-      · right; left; exact ⟨_, rfl⟩
-      · left; rfl
-      · right; right; rfl
-      · right; left; exact ⟨_, rfl⟩
-
 /-- complete case analysis of one step: control point, helper steps unfolded, every branch;
 the resulting configuration is a structure literal in every goal -/
 macro "step_all" : tactic =>
